@@ -30,7 +30,6 @@ AccountsExtra == <<
   P0("revenues:sales"), P0("assetsx:foo"), P0("кошелёк:a"), P("reserve:fund😀", 1), P("reserve:fund😀:x", 1),
   P0("reserve:fund"), P0("reserve"),
   P0("misc:reserve"), P0("Misc:Reserve") >>      \* 25, 26: one name in two letter cases (ranking ties, case-exact indexes)
-AccountsX == Accounts \o AccountsExtra
 
 (* commodities: sym = the symbol the parser should report, txt = how it is written *)
 Commodities == <<
@@ -44,6 +43,19 @@ Commodities == <<
   [sym |-> "дуб 😀", txt |-> P("\"дуб 😀\"", 1), k |-> "quoted"],
   [sym |-> "hours", txt |-> P0("hours"),        k |-> "lower"],
   [sym |-> "401k",  txt |-> P0("\"401k\""),     k |-> "quoted"] >>      \* letters and digits, a digit first: needs its quotes (10 401k reads as a number)
+
+(* generated members of the lexicon (reached only by the families that name them): every account <first>:<second> over
+   segment menus within G (letters, digits, blanks inside, non-ASCII, non-BMP), and quoted commodities over what a
+   quoted symbol may hold *)
+SegFirst  == << P0("a"), P0("A"), P0("é"), P("😀", 1), P0("a1"), P0("a b"), P0("Ab"), P0("銀") >>
+SegSecond == << P0("a"), P0("1"), P0("12"), P0("1a"), P0("é"), P("😀", 1), P0("a b"), P0("a 1"), P0("b2 c") >>
+AccountsGen == [k \in 1..(Len(SegFirst) * Len(SegSecond)) |->
+                  LET i == ((k - 1) \div Len(SegSecond)) + 1  j == ((k - 1) % Len(SegSecond)) + 1
+                  IN [s |-> SegFirst[i].s \o ":" \o SegSecond[j].s, a |-> SegFirst[i].a + SegSecond[j].a]]
+AccountsX == Accounts \o AccountsExtra \o AccountsGen       \* generated names start at index Len(Accounts) + Len(AccountsExtra) + 1
+QuotedGen == << P0("a b"), P0("a1"), P0("1a"), P0("x$"), P0("$x"), P0("a-b"), P0("a.b"), P0("é"), P("😀", 1), P0("1"), P0("-"), P0("US$") >>
+CommoditiesGen == [k \in 1..Len(QuotedGen) |-> [sym |-> QuotedGen[k].s, txt |-> [s |-> "\"" \o QuotedGen[k].s \o "\"", a |-> QuotedGen[k].a], k |-> "quoted"]]
+CommoditiesX == Commodities \o CommoditiesGen
 
 Descriptions == << P0("grocery store"), P0("rent"), P("café 😀 bar", 1), P0("покупка"), P0("lunch at joe's"), P0("x"),
                    P0("the annual general meeting of the allotment garden society of the old town") >>   \* 74 characters
@@ -129,7 +141,7 @@ Lit(st, s, kind) == Put(st, P0(s), kind)
    choice record: [neg, m, sc, n, comm (0 = none), side "L"/"R", sp (blank between commodity and
    number), sgn "before"/"after" (of a left commodity), plus (explicit + on a positive amount)] *)
 AbsAmount(a) == [mant |-> IF a.neg THEN 0 - a.m ELSE a.m, scale |-> a.sc,
-                 comm |-> IF a.comm = 0 THEN "" ELSE Commodities[a.comm].sym,
+                 comm |-> IF a.comm = 0 THEN "" ELSE CommoditiesX[a.comm].sym,
                  side |-> IF a.comm = 0 THEN "" ELSE a.side]
 
 SignStr(a) == IF a.neg THEN "-" ELSE IF a.plus THEN "+" ELSE ""
@@ -141,7 +153,7 @@ RenAmount(st, a, kind) ==
         rstart == Len(st.s) - st.a
         body ==
           IF a.comm = 0 THEN Put(Lit(st, sg, ""), num, "number")
-          ELSE LET c == Commodities[a.comm].txt IN
+          ELSE LET c == CommoditiesX[a.comm].txt IN
             IF a.side = "L"
             THEN IF a.sgn = "before"
                  THEN Put(Sp(Put(Lit(st, sg, ""), c, "commodity"), IF a.sp THEN 1 ELSE 0), num, "number")
@@ -156,8 +168,8 @@ AmountOK(a) ==
     /\ a.neg => ~a.plus
     /\ a.comm = 0 => (a.side = "R" /\ ~a.sp /\ a.sgn = "before")
     /\ a.comm # 0 =>
-         /\ (a.side = "R" /\ Commodities[a.comm].k # "symbol") => a.sp    \* blank mandatory before a word/quoted commodity
-         /\ (a.side = "L" /\ Commodities[a.comm].k = "lower") => FALSE     \* a lower-case word is only written on the right
+         /\ (a.side = "R" /\ CommoditiesX[a.comm].k # "symbol") => a.sp    \* blank mandatory before a word/quoted commodity
+         /\ (a.side = "L" /\ CommoditiesX[a.comm].k = "lower") => FALSE     \* a lower-case word is only written on the right
          /\ a.side = "R" => a.sgn = "before"
          /\ (a.side = "L" /\ a.n \in {"gsc", "gsp"} /\ ~a.sp) => TRUE
 
@@ -323,12 +335,12 @@ IncludePathsX == IncludePaths \o << "a.journal", "s.journal", "x.journal", "main
 AbsDir(d) ==
     CASE d.dir = "account"   -> [type |-> "account", name |-> AccountsX[d.acct].s,
                                  comment |-> IF Len(d.cmt) = 0 THEN "" ELSE CommentText(d.cmt[1])]
-      [] d.dir = "commodity" -> [type |-> "commodity", symbol |-> Commodities[IF d.form = "plain" THEN d.comm ELSE Formats[d.fmt].comm].sym,
+      [] d.dir = "commodity" -> [type |-> "commodity", symbol |-> CommoditiesX[IF d.form = "plain" THEN d.comm ELSE Formats[d.fmt].comm].sym,
                                  format |-> IF d.form = "plain" THEN "" ELSE Formats[d.fmt].txt]
       [] d.dir = "include"   -> [type |-> "include", path |-> IncludePathsX[d.path]]
-      [] d.dir = "P"         -> [type |-> "P", date |-> AbsDate(d.date), symbol |-> Commodities[d.comm].sym, amount |-> AbsAmount(d.a)]
+      [] d.dir = "P"         -> [type |-> "P", date |-> AbsDate(d.date), symbol |-> CommoditiesX[d.comm].sym, amount |-> AbsAmount(d.a)]
       [] d.dir = "Y"         -> [type |-> "Y", year |-> d.y]
-      [] d.dir = "D"         -> [type |-> "D", symbol |-> Commodities[Formats[d.fmt].comm].sym, format |-> Formats[d.fmt].txt]
+      [] d.dir = "D"         -> [type |-> "D", symbol |-> CommoditiesX[Formats[d.fmt].comm].sym, format |-> Formats[d.fmt].txt]
       [] d.dir = "comment"   -> [type |-> "comment", text |-> CommentText(d.c)]
       [] OTHER               -> [type |-> "blank"]
 
@@ -336,14 +348,14 @@ RenDir(d) ==
     CASE d.dir = "account"   -> << LET s == Put(Sp(Lit(Empty, "account", "directive"), 1), AccountsX[d.acct], "account")
                                    IN IF Len(d.cmt) = 0 THEN s ELSE RenComment(Sp(s, 2), d.cmt[1]) >>
       [] d.dir = "commodity" ->
-            IF d.form = "plain" THEN << Put(Sp(Lit(Empty, "commodity", "directive"), 1), Commodities[d.comm].txt, "commodity") >>
+            IF d.form = "plain" THEN << Put(Sp(Lit(Empty, "commodity", "directive"), 1), CommoditiesX[d.comm].txt, "commodity") >>
             ELSE IF d.form = "inline" THEN << Lit(Sp(Lit(Empty, "commodity", "directive"), 1), Formats[d.fmt].txt, "format") >>
-            ELSE << Put(Sp(Lit(Empty, "commodity", "directive"), 1), Commodities[Formats[d.fmt].comm].txt, "commodity"),
+            ELSE << Put(Sp(Lit(Empty, "commodity", "directive"), 1), CommoditiesX[Formats[d.fmt].comm].txt, "commodity"),
                     Lit(Sp(Lit(Sp(Empty, 2), "format", ""), 1), Formats[d.fmt].txt, "format") >>
       [] d.dir = "include"   -> << LET s == Lit(Sp(Lit(Empty, "include", "directive"), 1), IncludePathsX[d.path], "incpath")
                                    IN IF "cmt" \in DOMAIN d /\ Len(d.cmt) = 1 THEN RenComment(Sp(s, 2), d.cmt[1]) ELSE s >>
       [] d.dir = "P"         -> << RenAmount(Sp(Put(Sp(Lit(Sp(Lit(Empty, "P", "directive"), 1), DateStr(d.date), "date"), 1),
-                                                    Commodities[d.comm].txt, "commodity"), 1), d.a, "amount") >>
+                                                    CommoditiesX[d.comm].txt, "commodity"), 1), d.a, "amount") >>
       [] d.dir = "Y"         -> << Lit(Sp(Lit(Empty, d.word, "directive"), 1), ToString(d.y), "year") >>
       [] d.dir = "D"         -> << Lit(Sp(Lit(Empty, "D", "directive"), 1), Formats[d.fmt].txt, "format") >>
       [] d.dir = "comment"   -> << RenComment(Empty, d.c) >>
